@@ -22,9 +22,16 @@ SortOK(x, asc, sorted, idx) ==
     /\ IsPerm0(idx, Len(x))
     /\ \A i \in 1..Len(x) : sorted[i] = x[idx[i] + 1]
 
+(* k-th smallest (1-based) by counting, no sorting: v with #{< v} < k <= #{<= v} *)
+Kth(w, k) == CHOOSE v \in {w[i] : i \in 1..Len(w)} :
+                /\ Cardinality({i \in 1..Len(w) : w[i] < v}) < k
+                /\ Cardinality({i \in 1..Len(w) : w[i] <= v}) >= k
 (* 2 * median of a non-empty window *)
-Median2(w) == LET s == SortSeq(w)  n == Len(w)
-              IN IF n % 2 = 1 THEN 2 * s[n \div 2 + 1] ELSE s[n \div 2] + s[n \div 2 + 1]
+Median2(w) == LET n == Len(w)
+              IN IF n % 2 = 1 THEN 2 * Kth(w, n \div 2 + 1) ELSE Kth(w, n \div 2) + Kth(w, n \div 2 + 1)
+(* the same through an explicit sort (small windows; MC_Order checks both agree) *)
+Median2Sort(w) == LET s == SortSeq(w)  n == Len(w)
+                  IN IF n % 2 = 1 THEN 2 * s[n \div 2 + 1] ELSE s[n \div 2] + s[n \div 2 + 1]
 
 (* MedianFilter(n, init): window = last n samples of (n copies of init) | stream *)
 XI(x, i, init) == IF i >= 0 THEN x[i + 1] ELSE init
@@ -47,11 +54,11 @@ UpdateSort(s, vnew, vold) ==
 
 (* rank correlations on tie-free integer data, as exact rationals num/den *)
 Sgn(v) == IF v > 0 THEN 1 ELSE IF v < 0 THEN -1 ELSE 0
-PairSum(n, F(_, _)) == LET RECURSIVE S(_, _)
-                           S(i, k) == IF i > n - 1 THEN 0
-                                      ELSE IF k > n THEN S(i + 1, i + 2)
-                                      ELSE F(i, k) + S(i, k + 1)
-                       IN S(1, 2)
+SumRange(lo, hi, F(_)) == LET RECURSIVE S(_)
+                              S(i) == IF i > hi THEN 0 ELSE F(i) + S(i + 1)
+                          IN S(lo)
+(* sum over pairs i < k, as nested sums (recursion depth n, not n^2) *)
+PairSum(n, F(_, _)) == SumRange(1, n - 1, LAMBDA i : SumRange(i + 1, n, LAMBDA k : F(i, k)))
 KendallNum(x, y) == PairSum(Len(x), LAMBDA i, k : Sgn(x[i] - x[k]) * Sgn(y[i] - y[k]))
 KendallDen(x) == (Len(x) * (Len(x) - 1)) \div 2
 Rank(x, i) == Cardinality({k \in 1..Len(x) : x[k] < x[i]})
